@@ -19,4 +19,5 @@ EXTRAS = [
     lambda rep, fb, tier: origin.rule_origin(rep, fb),
     lambda rep, fb, tier: __import__("vf.rules.methodrules", fromlist=["x"]).rule_index_content(rep, fb),
     lambda rep, fb, tier: __import__("vf.rules.methodrules", fromlist=["x"]).rule_option_shifts(rep, fb),
+    lambda rep, fb, tier: __import__("vf.rules.lints", fromlist=["x"]).rule_dtype_case(rep, fb),
 ]
